@@ -116,6 +116,13 @@ func statusHook(meta Meta, op string) func(t *rapid.T, parent reflect.Type, f re
 		}
 	}
 	return func(t *rapid.T, parent reflect.Type, f reflect.StructField, v reflect.Value) bool {
+		if f.Name == "ContentType" && f.Type.Kind() == reflect.String && parent.Kind() == reflect.Struct {
+			if _, ok := parent.FieldByName("Content"); ok {
+				// the concrete media type of a body that the document declares by a wildcard
+				v.SetString(rapid.SampledFrom([]string{"application/x-verif-data", "application/octet-stream", "application/pdf"}).Draw(t, "maskcontenttype"))
+				return true
+			}
+		}
 		if declared != nil && f.Name != "StatusCode" && f.Name != "Response" && parent.Kind() == reflect.Struct {
 			if _, isWrapper := parent.FieldByName("Response"); isWrapper && !declared[alnumLower(f.Name)] {
 				// known finding excluded by construction (counted): the wrapper type was built for another
